@@ -4,6 +4,7 @@ package c14
 
 import (
 	"context"
+	"database/sql"
 	"encoding/json"
 	"fmt"
 	"io"
@@ -78,6 +79,14 @@ func existingDatabase(run *vk.Run, scratch string) {
 	src.Close()
 	dst.Close()
 	defer func() { os.Remove(path); os.Remove(path + "-wal"); os.Remove(path + "-shm") }()
+	// the file has been lying around for a good while: its subscriptions were last heard of more than
+	// a year ago (a quiet consumer is still a consumer)
+	if db, err := sql.Open("sqlite", "file:"+path); err == nil {
+		if _, err := db.Exec("UPDATE subscription_positions SET updated_at = datetime('now', '-400 days')"); err == nil {
+			run.Count("fixture_subscriptions_aged_by_400_days", 1)
+		}
+		db.Close()
+	}
 	run.Case("a database file written by the pinned release", true)
 	bad := func(desc string) {
 		run.Violation("sqlite:existing-database-file", "a database file written by the pinned release (25 events, two saved offsets, closed cleanly): "+desc, nil)
